@@ -130,7 +130,7 @@ theorem matches_abs (q : SQuery) (hq : WFQ q) (n : Node) :
   | all => rfl
   | children p =>
     have := (children_match p hq.1 n.name).1
-    simp only [sMatches, toQuery, qMatches, absN, absNode]
+    simp only [sMatches, toQuery, qMatches, absN]
     by_cases h : (joinDot p ++ ['.']).isPrefixOf n.name = true
     · obtain ⟨h1, h2⟩ := this.mp h
       simp [h, h1, h2]
@@ -143,7 +143,7 @@ theorem matches_abs (q : SQuery) (hq : WFQ q) (n : Node) :
         simp [h1, this]
       · simp [h1]
   | exact p =>
-    simp only [sMatches, toQuery, qMatches, absN, absNode]
+    simp only [sMatches, toQuery, qMatches, absN]
     by_cases h : n.name = joinDot p
     · simp [h, splitDot_joinDot p hq.1]
     · have : splitDot n.name ≠ p := by
@@ -157,14 +157,14 @@ theorem reroot_abs (q : SQuery) (hq : WFQ q) (dest : List Str) (hd : WFDest dest
   have hpath : splitDot (importName imp.name (qRename (toQuery q) n).name) = (sReroot dest q (absN n)).path := by
     rw [hname, splitDot_impName dest hd]
     cases q with
-    | all => simp [toQuery, qRename, sReroot, absN, absNode]
+    | all => simp [toQuery, qRename, sReroot, absN]
     | children p =>
       simp only [toQuery, qMatches] at hm
       have := (children_match p hq.1 n.name).2 hm
-      simp only [toQuery, qRename, sReroot, absN, absNode, this]
+      simp only [toQuery, qRename, sReroot, absN, this]
     | exact p =>
-      simp only [toQuery, qRename, sReroot, absN, absNode, splitDot_lastComp]
-  cases q <;> simp_all [absN, absNode, mkCopy, qRename, toQuery, sReroot]
+      simp only [toQuery, qRename, sReroot, absN, splitDot_lastComp]
+  cases q <;> simp_all [absN, mkCopy, qRename, toQuery, sReroot]
 
 theorem select_abs (q : SQuery) (hq : WFQ q) (ns : List Node) :
     select q (ns.map absN) = (ns.filter (qMatches (toQuery q))).map absN := by
